@@ -90,7 +90,15 @@ pub struct AddrEntry {
 }
 
 pub fn visible_entries(ifs: &[IfSpec]) -> Vec<AddrEntry> {
-    ifs.iter().filter(|i| i.up && !i.p2p).flat_map(|i| i.addrs.iter().map(move |(ip, _)| AddrEntry { index: i.index, name: i.name.clone(), ip: *ip })).collect()
+    visible_entries_with(ifs, false)
+}
+
+/// `apple_p2p`: the option `include_apple_p2p` is on (interfaces named awdl* / llw* are left out otherwise).
+pub fn visible_entries_with(ifs: &[IfSpec], apple_p2p: bool) -> Vec<AddrEntry> {
+    ifs.iter()
+        .filter(|i| i.up && !i.p2p && (apple_p2p || !(i.name.starts_with("awdl") || i.name.starts_with("llw"))))
+        .flat_map(|i| i.addrs.iter().map(move |(ip, _)| AddrEntry { index: i.index, name: i.name.clone(), ip: *ip }))
+        .collect()
 }
 
 fn matches(k: &Kind, e: &AddrEntry) -> bool {
@@ -111,13 +119,15 @@ fn matches(k: &Kind, e: &AddrEntry) -> bool {
 #[derive(Clone, Debug, Default)]
 pub struct SelModel {
     pub selections: Vec<(Kind, bool)>,
+    /// The option `include_apple_p2p` as last set (off by default).
+    pub apple_p2p: bool,
 }
 
 impl SelModel {
     /// A call with an address names the interface (and family) that has it at that moment;
     /// when none has, it keeps meaning that address (for interfaces that show up later).
     pub fn call(&mut self, kinds: &[Kind], on: bool, table: &[IfSpec]) {
-        let entries = visible_entries(table);
+        let entries = visible_entries_with(table, self.apple_p2p);
         for k in kinds {
             let k = match k {
                 Kind::Addr(a) => match entries.iter().find(|e| e.ip == *a) {
@@ -140,7 +150,7 @@ impl SelModel {
         on
     }
     pub fn enabled_entries(&self, table: &[IfSpec]) -> BTreeSet<AddrEntry> {
-        visible_entries(table).into_iter().filter(|e| self.enabled(e)).collect()
+        visible_entries_with(table, self.apple_p2p).into_iter().filter(|e| self.enabled(e)).collect()
     }
     pub fn enabled_links(&self, table: &[IfSpec]) -> BTreeSet<(u32, bool)> {
         self.enabled_entries(table).iter().map(|e| (e.index, e.ip.is_ipv4())).collect()
@@ -392,6 +402,11 @@ pub fn scenario_s(seed: u64) -> MadeS {
     let mut w = World::new(seed);
     w.set_stepping(Stepping::Lazy);
     let mut table = topology(&mut rng);
+    // one table in four has an Apple peer-to-peer interface (by its name): left out unless the option says otherwise
+    let with_awdl = util::mix(seed, 0xA9) % 4 == 0;
+    if with_awdl {
+        table.push(IfSpec::new("awdl0", 8, 4, &[("fe80::8", 64)]));
+    }
     let h = w.add_host(table.clone());
     let t0 = w.now();
     w.set_ip_check_interval(h, CHECK_S);
@@ -412,7 +427,25 @@ pub fn scenario_s(seed: u64) -> MadeS {
     let mut ck = 0;
     for op in 0..n_ops {
         let after;
-        if rng.chance(3, 5) || (early && op == 0) {
+        if with_awdl && util::mix(seed, 0xAA + op as u64) % 3 == 0 {
+            let on = !model.apple_p2p || util::mix(seed, 0xBA + op as u64) % 3 == 0;
+            model.apple_p2p = on;
+            if early && w.now() < t0 + 5500 {
+                // (the short check interval counts only from the first, default, check on)
+                w.run_until(t0 + 5500);
+            }
+            w.include_apple_p2p(h, on);
+            let idx = w.trace.entries.len() - 1;
+            w.settle();
+            calls.push((idx, model.clone(), table.clone()));
+            // (for what may be judged when, the option counts as a change of the table)
+            edits.push((w.now(), table.clone()));
+            // (switching the option off takes effect at the next interface check, like a change of the table; and
+            // the check must keep what switching it on brought: look after one has run)
+            w.run_for(FLUX_MS + rng.below(1500));
+            after = format!("include-apple-p2p-{on}");
+            desc.push_str(&format!(" include_apple_p2p({on})"));
+        } else if rng.chance(3, 5) || (early && op == 0) {
             let on = rng.chance(1, 2);
             let kinds: Vec<Kind> = (0..1 + rng.usize(2)).map(|_| random_kind(&mut rng, &table)).collect();
             model.call(&kinds, on, &table);
